@@ -58,7 +58,10 @@ CHECKS["C08"] = dict(
     "protocol-3 byte stream fed to the digest unchanged), encode_injective_partial + type discrimination via a verified decoder of "
     "the opcode stream (values that never take the digest fallback), F6/F12 witnesses; the Lean encode is compared byte for byte "
     "with the real Hasher stream, digests are recomputed in fresh interpreters under several PYTHONHASHSEEDs and insertion orders, "
-    "all-pairs discrimination over the generated universe.",
+    "all-pairs discrimination over the generated universe. Values with SHARED REFERENCES and cycles: the memo numbering is modelled "
+    "(HashMemo.lean: memo_indices_are_positions, memo_indices_distinct, binget_unambiguous_partial, reissued_index_is_ambiguous) and tied "
+    "to the indices the real Hasher.memo issues; their byte stream stays oracle-only (equal digest => equal content with references "
+    "unfolded; determinism under hash seeds and insertion orders).",
     note="modelled not verified: md5/sha1 (theorems are about the stream handed to the digest; H is a parameter), pickle._Pickler "
     "beyond the modelled opcode fragment, sorted() raising TypeError iff two keys are incomparable; aliased tuples and NaN keys are "
     "outside the domain; F12 (fallback collision) is a known finding.",
@@ -106,9 +109,12 @@ CHECKS["C20"] = dict(
     "model and a disk): client_tracker_composed, client_requests_wellformed, refcount_matches_users(_repaired), "
     "never_deleted_while_held (every operation sequence, the code as repaired by F45) + never_deleted_while_held_partial and "
     "extra_reference_released_twice_counterexample (the older code), eventually_deleted(_at_exit), client_invariants; generated client "
-    "programs run on the real manager / reducers / tracker and are compared with the model step by step (request stream, folders, files).",
+    "programs run on the real manager / reducers / tracker and are compared with the model step by step (request stream, folders, files). "
+    "SIGNALS (TrackerSignals.lean: mask, disposition, pending bit): start_never_loses_to_a_pending_signal, "
+    "unblock_before_ignore_counterexample, launcher_mask_is_needed; SIGINT / SIGTERM are sent at every phase of the real tracker's life. "
+    "The asynchronous pipe as a variant (TrackerLag.lean): tracker_lag_counterexample (= F60), lag_with_caught_up_tracker_is_synchronous.",
     note="modelled not verified: pipe EOF and write atomicity, readline, the warnings module, os.unlink/rmtree/sem_unlink; client side: "
-    "tracker and client in synchrony after each step, uuid uniqueness of folder / file names, memmaps held by MemmappingPool workers are "
+    "tracker and client in synchrony after each step (ASSUMED, and false of the real system under tracker lag: F60; the probe enforces it), uuid uniqueness of folder / file names, memmaps held by MemmappingPool workers are "
     "unregistered by design (judged by the probe's oracle, not by the tracker-side theorem).",
     technique="Lean 4 proof (induction over the request log, refinement to an abstract refcount) + differential correspondence with the real tracker process",
     ref="6/C20",
@@ -308,7 +314,10 @@ CHECKS["C11"] = dict(
     text="rely/guarantee: participants_satisfy_G(_evict,_clear), one_complete_result(_star), call_correct_under_G_calls and "
     "call_correct_under_G_evict (a cached call interleaved with ANY sequence, any length, any number of participants, of environment "
     "steps within the guarantee returns the right value and does not raise), call_correct_under_G_clear_partial + F19 witness; "
-    "interleavings of 2-4 threads at line granularity under a sys.monitoring scheduler on the real code, compared call by call.",
+    "interleavings of 2-4 threads at line granularity under a sys.monitoring scheduler on the real code, compared call by call. "
+    "Participants as distinct Memory OBJECTS with per-process in-memory state (StoreObjects.lean): checkPreviousObj_fresh, "
+    "object_history_witness; histories in which ANOTHER object clears / evicts between two operations of this object are tried first "
+    "and compared step by step.",
     note="modelled not verified: FS syscall atomicity, thread scheduling below line granularity; F19 (call vs clear) and F37 (three "
     "first-time callers) are known findings; exceptions raised by clear/reduce_size themselves are outside the property.",
     technique="Lean 4 proof (rely/guarantee over the file-system model) + deterministic line-level schedule correspondence",
